@@ -35,6 +35,10 @@ def exact_power(chk: Check, n, family, with_gen):
         rel = i % 2 == 0
         effs = [sign * F(rng.randint(1, 30), 100) for _ in range(rng.randint(1, 3))]
         nobs = [rng.randint(20, 5000) for _ in range(rng.randint(1, 3))] if i % 4 else None
+        if i % 5 == 3:                      # repeated values are legitimate input: one row per combination, in order
+            effs = effs + [effs[0]]
+            if nobs:
+                nobs = nobs + [nobs[0]]
         cases.append(dict(alt=alt, ev=ev, ut=ut, cov=with_cov, t=t, ratio=ratio, alpha=alpha, rel=rel, effs=effs,
                           nobs=nobs))
     ag = [parse_aggr(NAMES, o) for o in Driver("DriverSpec.lean").ask(
@@ -170,6 +174,36 @@ def float_relations(chk: Check, n):
             continue
         pw = {(r.effect_size, r.n_obs): r.power for r in grid}
         pwc = {(r.effect_size, r.n_obs): r.power for r in gridc}
+        # an uninformative covariate (sample variance exactly 0, zero covariance) leaves the power unchanged
+        const = A(1000, {"x": mean, "k": 7.0}, {"x": var, "k": 0.0}, {("k", "x"): 0.0})
+        try:
+            gridk = tt.Mean("x", "k", effect_size=tuple(effs), n_obs=tuple(ns), **kw).solve_power(const, "power")
+            for r, rk in zip(grid, gridk):
+                if not (r.power == rk.power or abs(r.power - rk.power) <= 1e-12 or (math.isnan(r.power) and math.isnan(rk.power))):
+                    chk.fail("a covariate with zero variance changes the reported power",
+                             dict(input=inp, effect=r.effect_size, n_obs=r.n_obs, plain=r.power, constant_covariate=rk.power))
+                    break
+        except Exception as ex:  # noqa: BLE001
+            chk.fail("solve_power raised with a constant covariate", dict(input=inp, error=repr(ex)))
+        # n_obs inferred from the sample: every call uses the size of the sample IT is given, whatever the metric object
+        # has been used for before; solve_power never changes the metric's parameters
+        m_inf = tt.Mean("x", effect_size=effs[1], **kw)
+        before = repr(m_inf)
+        sizes = [int(rng.choice([200, 1000, 5000])), int(rng.choice([300, 2000, 40000]))]
+        for sz in sizes:
+            smp = A(sz, {"x": mean}, {"x": var}, {})
+            try:
+                got = m_inf.solve_power(smp, "power")[0]
+                fresh = tt.Mean("x", effect_size=effs[1], **kw).solve_power(smp, "power")[0]
+            except Exception as ex:  # noqa: BLE001
+                chk.fail("solve_power raised with n_obs inferred from the sample", dict(input=inp, error=repr(ex)))
+                break
+            if got.n_obs != sz or not (got.power == fresh.power or (math.isnan(got.power) and math.isnan(fresh.power))):
+                chk.fail("power with n_obs inferred from the sample depends on earlier calls on the same metric object",
+                         dict(input=inp, sample_size=sz, reported_n_obs=got.n_obs, power=got.power, fresh_metric_power=fresh.power))
+                break
+        if repr(m_inf) != before:
+            chk.fail("solve_power changed the metric's parameters", dict(input=inp, before=before, after=repr(m_inf)))
         for (e, nn), p in list(pw.items()) + list(pwc.items()):
             if math.isnan(p):
                 nan_points += 1
